@@ -209,27 +209,29 @@ fn parse_table(v: &OV) -> J {
     )
 }
 
-pub fn run_record(r: &J, out: &mut Out) {
-    let ty = r["ty"].as_u64().unwrap() as u32;
-    let src = r["src"].as_str().unwrap_or("ov");
-    let etype = r["etype"].as_str().unwrap_or("rec");
-    let payload = rt::ov_from_rec(&r["val"]);
-    let script: Vec<bool> = r["script"].as_array().map(|a| a.iter().map(|x| x.as_u64().unwrap_or(1) == 1).collect()).unwrap_or_default();
-    let dflt = r["dflt"].as_str().unwrap_or("c") == "c";
-    let want_msgs = r["msgs"].as_bool().unwrap_or(false);
-    let pres = presented(&payload, src);
-    rt::reset_ctx(&script, dflt, want_msgs);
-    let done = crate::gen_cat::run_entry(ty, src, etype, &payload);
+/// one execution; returns the number of decisions (error()/merge() calls) the error type was asked
+fn run_once(r: &J, ty: u32, payload: &OV, src: &str, etype: &str, script: &[bool], dflt: bool, head: &str, isref: bool, perm: bool, out: &mut Out) -> u32 {
+    let pres = presented(payload, src);
+    rt::reset_ctx(script, dflt, isref);
+    let done = crate::gen_cat::run_entry(ty, src, etype, payload);
     let events = rt::take_events();
-    let head = if r["grp"].as_str().unwrap_or("start") == "start" { "reset" } else { "run" };
-    if let Done::Skip(why) = &done {
-        let _ = why;
-        return;
+    let decisions = rt::CTX.with(|c| c.borrow().decisions);
+    if let Done::Skip(_) = &done {
+        return 0;
+    }
+    let mut inp = r.clone();
+    if let Some(o) = inp.as_object_mut() {
+        o.remove("perms");
+        o.insert("perm".into(), json!(perm));
+        o.insert("val".into(), enc_ov(payload));
+        o.insert("src".into(), json!(src));
+        o.insert("etype".into(), json!(etype));
+        o.insert("script".into(), json!(script.iter().map(|b| if *b { 1 } else { 0 }).collect::<Vec<u8>>()));
+        o.insert("dflt".into(), json!(if dflt { "c" } else { "b" }));
     }
     out.emit(&json!({"e": head, "ty": ty, "val": enc_ov(&pres), "src": src, "etype": etype,
                      "script": script.iter().map(|b| if *b { 1 } else { 0 }).collect::<Vec<u8>>(), "dflt": if dflt { "c" } else { "b" },
-                     "ref": r["ref"].as_bool().unwrap_or(false), "deep": r["deep"].as_bool().unwrap_or(false),
-                     "pk": parse_table(&payload), "inp": r}));
+                     "deep": r["deep"].as_bool().unwrap_or(false), "pk": parse_table(payload), "inp": inp}));
     for e in &events {
         out.emit(e);
     }
@@ -240,6 +242,67 @@ pub fn run_record(r: &J, out: &mut Out) {
         Done::Panic(m) => out.emit(&json!({"e": "panic", "msg": m})),
         Done::Skip(_) => {}
     }
+    decisions
+}
+
+/// One input record = one group of runs:
+///   the all-Continue reference run, then (auto) the scripts C^k B^w for every k up to the number of
+///   decisions, every script when there are few decisions, seeded random scripts, the built-in error
+///   types, and (perms) the same payload with permuted object members.
+pub fn run_record(r: &J, out: &mut Out, rng: &mut crate::util::Rng) {
+    let ty = r["ty"].as_u64().unwrap() as u32;
+    let src = r["src"].as_str().unwrap_or("ov");
+    let etype = r["etype"].as_str().unwrap_or("rec");
+    let payload = rt::ov_from_rec(&r["val"]);
+    if src == "json" && ov_to_json(&payload).is_none() {
+        return;
+    }
+    if r.get("script").is_some() && !r["script"].is_null() {
+        // explicit single run (replay of one behaviour): still preceded by its reference run
+        let script: Vec<bool> = r["script"].as_array().unwrap().iter().map(|x| x.as_u64().unwrap_or(1) == 1).collect();
+        let dflt = r["dflt"].as_str().unwrap_or("c") == "c";
+        run_once(r, ty, &payload, src, "rec", &[], true, "reset", true, false, out);
+        run_once(r, ty, &payload, src, etype, &script, dflt, "run", false, false, out);
+        return;
+    }
+    let n = run_once(r, ty, &payload, src, "rec", &[], true, "reset", true, false, out);
+    let auto = &r["auto"];
+    let cap = auto["prefix_cap"].as_u64().unwrap_or(0) as u32;
+    for k in 0..n.min(cap) {
+        let script = vec![true; k as usize];
+        run_once(r, ty, &payload, src, "rec", &script, false, "run", false, false, out);
+    }
+    let all_upto = auto["all_upto"].as_u64().unwrap_or(0) as u32;
+    if n >= 2 && n <= all_upto {
+        for bits in 0..(1u32 << n) {
+            let script: Vec<bool> = (0..n).map(|i| bits & (1 << i) != 0).collect();
+            // C^k B^w and all-C are already covered above
+            let first_b = script.iter().position(|b| !*b);
+            let is_prefix = match first_b {
+                None => true,
+                Some(p) => script[p..].iter().all(|b| !*b),
+            };
+            if is_prefix {
+                continue;
+            }
+            run_once(r, ty, &payload, src, "rec", &script, true, "run", false, false, out);
+        }
+    }
+    for _ in 0..auto["random"].as_u64().unwrap_or(0) {
+        let len = n.max(1) as usize;
+        let script: Vec<bool> = (0..len).map(|_| rng.chance(2, 3)).collect();
+        run_once(r, ty, &payload, src, "rec", &script, rng.chance(1, 2), "run", false, false, out);
+    }
+    if auto["builtin"].as_bool().unwrap_or(false) {
+        run_once(r, ty, &payload, src, "json", &[], false, "run", false, false, out);
+        run_once(r, ty, &payload, src, "query", &[], false, "run", false, false, out);
+    }
+    if let Some(ps) = r["perms"].as_array() {
+        for p in ps {
+            let pp = rt::ov_from_rec(p);
+            run_once(r, ty, &pp, "ov", "rec", &[], true, "run", false, true, out);
+        }
+    }
 }
 
 /// `dh core run` : records on stdin.
@@ -248,8 +311,9 @@ pub fn main(args: &[String]) {
     let mut out = Out::stdout();
     match args.first().map(|s| s.as_str()) {
         Some("run") | Some("replay") => {
+            let mut rng = crate::util::Rng::from_env(0xC0DE);
             for r in crate::util::read_ndjson_stdin() {
-                run_record(&r, &mut out);
+                run_record(&r, &mut out, &mut rng);
             }
         }
         Some("entries") => {
